@@ -121,15 +121,21 @@ Definition calm22 (s : lstate_t) : bool := match rxq (bf s) with [] => true | _ 
 Definition lost22 (s : lstate_t) : bool :=
   (conn_timeout (tm s) <=? tsle (cs s)) || (lstate_eqb (st s) Connecting && (5 * interval (tm s) <=? tsle (cs s))).
 Definition is_some22 (d : option (list N)) : bool := match d with Some _ => true | None => false end.
-(* an update that is delivered or waiting either stays waiting or - in a connection event - is applied at its instant
-   (the link layer is in state connection_changed afterwards).  Outside: a delivered update that is refused (instant
-   passed: the link is dropped), an update whose parameters are found invalid at its instant (the link is dropped), an
-   instant that falls on a MISSED event (timeout()).  A missed event that ends the link by the supervision timeout is inside. *)
+(* an update that is delivered or waiting either stays waiting, or is applied at its instant by a connection event or by a
+   missed event (the link layer is in state connection_changed afterwards), or is found invalid at its instant by a
+   connection event (the link is dropped), or is refused when it is delivered ([refusal22]: the link is dropped).
+   Outside: an update found invalid at an instant that falls on a MISSED event - timeout() then closes the link with reason
+   0x08 before the supervision timeout, which the monitor REJECTS (clause supervision_early: the known finding
+   C22-invalid-update); an update that is delivered, waits and is applied within the same end_event(). *)
+(* an update that is REFUSED when it is looked at (nothing waiting, transmit buffer available): instant passed or the next event *)
+Definition refusal22 (s : lstate_t) (pdus : list pdu) : bool :=
+  negb (is_some22 (deferred s)) && tx_avail (bf s)
+  && match pdus with [u] => upd_ok22 u && instant_passed_update (rd16 (snd u) 10) (evc (cs s)) | _ => false end.
 Definition still22 (s : lstate_t) (o : lop) (s' : lstate_t) : bool :=
   match o with
-  | Ev _ pdus => if is_some22 (deferred s) || match updates_of pdus with [] => false | _ => true end
-                 then is_some22 (deferred s') || (is_some22 (deferred s) && lstate_eqb (st s') ConnChanged) else true
-  | Timeout => if is_some22 (deferred s) then is_some22 (deferred s') || lost22 s else true
+  | Ev _ pdus => refusal22 s pdus || if is_some22 (deferred s) || match updates_of pdus with [] => false | _ => true end
+                 then is_some22 (deferred s') || (is_some22 (deferred s) && (lstate_eqb (st s') ConnChanged || negb (in_connection s'))) else true
+  | Timeout => if is_some22 (deferred s) then is_some22 (deferred s') || lost22 s || lstate_eqb (st s') ConnChanged else true
   | _ => true
   end.
 Fixpoint env22 (c : cfg) (s : lstate_t) (ops : list lop) : bool :=
@@ -726,6 +732,207 @@ Proof.
     subst s8 s1; unfold Glob; cbn [chan sc ac ring deferred set_ring set_pending_event upd_cs set_cs]. repeat split; try assumption.
 Qed.
 
+Lemma fd_glob' c s : length (ChanMapModel.tbl (chan s)) = 37%nat -> enc_prog (sc s) = false -> ap_pending (ac s) = false ->
+  Glob (set_ring (fst (force_disconnect c s)) []) /\ in_connection (set_ring (fst (force_disconnect c s)) []) = false
+  /\ has_adv22 (snd (force_disconnect c s)) = true.
+Proof.
+  intros G1 G2 G3. unfold force_disconnect, reset_encryption, reset_phy, push_event.
+  destruct (c_enc c); destruct (c_phy c); destruct (st s) eqn:S; destruct (c_cb c);
+    cbn [fst snd upd_sc set_sc st]; rewrite ?S; try destruct (_ <? _);
+    (split; [unfold Glob; cbn; repeat split; try assumption; right; reflexivity|split; reflexivity]).
+Qed.
+
+(* ========================================================================================== a refused update *)
+(* an LL_CONNECTION_UPDATE_IND whose instant has passed (or is the next event) is refused when it is looked at: the link is
+   dropped (reason 0x28) and advertising starts again *)
+Lemma refused_event c s e s' r b :
+  live22 s -> base22 s -> Glob s -> c_enc c = false ->
+  existsb (fun p => 27 <? N.of_nat (length (snd p))) [(3, b)] = false ->
+  length b = 12%nat -> byte b 0 = 0 -> deferred s = None -> tx_avail (bf s) = true ->
+  instant_passed_update (rd16 b 10) (evc (cs s)) = true ->
+  lstep c s (Ev e [(3, b)]) = (s', r) -> r <> OCrash ->
+  exists it, r = OItems it /\ has_adv22 it = true /\ in_connection s' = false /\ Glob s'.
+Proof.
+  intros Hst (B1 & B3 & B4 & B5 & B6 & B7 & BT) (G1 & G2 & G3 & G4 & G5) Enc HL L B0 DS TA IP H Hr.
+  cbn [lstep] in H. rewrite (in_conn_of3 s Hst) in H. rewrite HL in H.
+  destruct (radio_event_spec (S (length [(3, b)] + length (txq (bf s)))) s [(3, b)]) as (b' & R1 & R2 & R3 & R4 & R5 & R6 & R7).
+  { apply le_S. apply Nat.add_le_mono_l. apply unsent_le. } { apply le_n_S. apply Nat.le_0_l. }
+  destruct (radio_event _ s [(3, b)]) as [s1 it1]. cbn [fst snd] in R1, R7. subst s1 it1.
+  set (s1 := set_bf s b') in *. rewrite B1 in R4. cbn [app] in R4.
+  assert (NP : normalise21 [(3, b)] = [(3, b)]) by (unfold normalise21; cbn [map filter fst snd]; destruct b; [discriminate L|reflexivity]).
+  rewrite NP in R4.
+  assert (Hst1 : live22 s1) by exact Hst.
+  destruct (do_end_event c s1 e) as [[s2 it2]|] eqn:E2; [|inversion H; subst; congruence].
+  inversion H; subst s2 r; clear H.
+  destruct (prologue_form3 c s1 Hst1) as (rr & Esp & _).
+  unfold do_end_event in E2. rewrite Esp in E2.
+  set (sp := set_ring (upd_tm (set_st (set_pending_event s1 false) Connected) (fun t => set_tw_size t 0)) rr) in *.
+  destruct (end_event_body c sp e) as [[s9 it9]|] eqn:EB; cbn [obind] in E2; [|discriminate].
+  unfold end_event_body in EB. change (st sp) with Connected in EB. cbn [lstate_eqb andb] in EB.
+  assert (RXP : rxq (bf sp) = [(3, b)]) by exact R4.
+  assert (DP : deferred sp = None) by exact DS.
+  rewrite RXP in EB. cbn [length handle_received_data] in EB. rewrite DP, RXP in EB.
+  change GenLL.ll_control_pdu_code with 3 in EB. cbn [N.eqb Pos.eqb] in EB.
+  assert (TA' : tx_buffer_available sp = true) by (unfold tx_buffer_available; change (tx_avail (bf sp)) with (tx_avail b'); rewrite R3; exact TA).
+  rewrite TA' in EB.
+  assert (CL : classify21 (c_phy c) (3, b) = Some (PUpdate (byte b 1) (rd16 b 2) (rd16 b 4) (rd16 b 6) (rd16 b 8), rd16 b 10)).
+  { unfold classify21. cbn [N.eqb Pos.eqb negb]. rewrite L. cbn [N.of_nat Pos.of_succ_nat Pos.succ]. rewrite B0. reflexivity. }
+  pose proof (accept_full c sp b _ _ CL) as AF. cbn zeta in AF. pose proof (hlc_fr22 c sp b Enc) as HF.
+  destruct (handle_ll_control c sp b) as [[sa ita] ra]. cbn [fst snd] in AF, HF.
+  destruct AF as (-> & SC & [(_ & -> & _)|(RF & _)]).
+  2:{ exfalso. unfold refused in RF. change (evc (cs sp)) with (evc (cs s)) in RF. unfold instant_passed_update in IP. rewrite IP in RF. discriminate RF. }
+  destruct SC as (SC1 & SC2 & SC3 & SC4 & SC5 & SC6). destruct HF as (F1 & F2 & _ & _ & _ & _ & F8).
+  match type of EB with context [force_disconnect c ?X] => set (s3 := X) in * end.
+  destruct (fd_glob' c s3) as (FG & FI & FA).
+  { change (chan s3) with (chan sa). rewrite SC4. exact G1. }
+  { change (sc s3) with (sc sa). apply F8. exact G2. }
+  { change (ac s3) with (ac sa). rewrite F2. exact G3. }
+  destruct (force_disconnect c s3) as [s4 it4] eqn:FD. cbn [fst snd] in FG, FI, FA.
+  cbn [app] in EB. injection EB as E9 E9'. subst s9 it9.
+  unfold end_event_epilogue in E2.
+  assert (S4 : st s4 = Advertising) by (pose proof (LLProofsC27Sim.fd_st27 c s3) as X; rewrite FD in X; exact X).
+  rewrite S4 in E2. cbn [flush_events] in E2. inversion E2; subst s' it2; clear E2.
+  eexists. split; [reflexivity|]. split; [|split; [exact FI|exact FG]].
+  unfold has_adv22 in *. rewrite !existsb_app, FA. rewrite orb_true_r. reflexivity.
+Qed.
+
+(* ========================================================================================== an update that is invalid at its instant *)
+(* handle_pending_ll_control() + setup: if the link layer is not in a connection afterwards, the link was dropped here *)
+Lemma pts_dropped c s1 s8 it8 :
+  st s1 = Connected -> length (ChanMapModel.tbl (chan s1)) = 37%nat -> enc_prog (sc s1) = false -> ap_pending (ac s1) = false ->
+  pending_then_setup c s1 = Some (s8, it8) -> in_connection s8 = false ->
+  Glob (set_ring s8 []) /\ has_adv22 it8 = true /\ st s8 = Advertising.
+Proof.
+  intros S1 G1 G2 G3 H NI. unfold pending_then_setup, handle_pending_ll_control in H.
+  assert (SN : forall x y z, setup_next_connection_event x = Some (y, z) -> in_connection x = true -> in_connection y = true)
+    by (intros x y z E IC; apply setup_next_frame in E; destruct E as [-> _]; exact IC).
+  assert (IC1 : in_connection s1 = true) by (unfold in_connection; rewrite S1; reflexivity).
+  destruct (deferred s1) as [b|] eqn:D.
+  2:{ exfalso. cbn [obind] in H. destruct (setup_next_connection_event s1) as [[x y]|] eqn:E; cbn [obind app] in H; [|discriminate].
+      inversion H; subst. rewrite (SN _ _ _ E IC1) in NI. discriminate NI. }
+  destruct (def_instant s1 =? evc (cs s1)).
+  2:{ exfalso. cbn [obind] in H. destruct (setup_next_connection_event s1) as [[x y]|] eqn:E; cbn [obind app] in H; [|discriminate].
+      inversion H; subst. rewrite (SN _ _ _ E IC1) in NI. discriminate NI. }
+  set (s0 := upd_cs (set_deferred s1 None) _) in H.
+  destruct (byte b 0 =? GenLL.LL_CHANNEL_MAP_REQ).
+  { exfalso. destruct (ChanMapModel.reset_impl _ _ _) as [ch r0]. cbn [obind] in H.
+    destruct (setup_next_connection_event (set_chan s0 ch)) as [[x y]|] eqn:E; cbn [obind] in H; [|discriminate].
+    inversion H; subst. rewrite (SN _ _ _ E IC1) in NI. discriminate NI. }
+  destruct (byte b 0 =? GenLL.LL_CONNECTION_UPDATE_IND).
+  { destruct (parse_update b) as [tt ok]. destruct ok as [[|]|]; cbn [obind] in H; [| |discriminate].
+    - exfalso. match type of H with context [setup_next_connection_event ?X] => destruct (setup_next_connection_event X) as [[x y]|] eqn:E end; cbn [obind] in H; [|discriminate].
+      inversion H; subst. apply setup_next_frame in E. destruct E as [-> _].
+      unfold push_event in NI. destruct (c_cb c); [destruct (_ <? _)|]; discriminate NI.
+    - match type of H with context [force_disconnect c ?X] => destruct (fd_glob' c X G1 G2 G3) as (FG & _ & FA); pose proof (LLProofsC27Sim.fd_st27 c X) as FS; destruct (force_disconnect c X) as [x y] end.
+      cbn [fst snd] in FG, FA, FS. cbn [app] in H. inversion H; subst. split; [exact FG|]. split; [exact FA|exact FS]. }
+  exfalso. cbn [obind] in H.
+  match type of H with context [setup_next_connection_event ?X] => destruct (setup_next_connection_event X) as [[x y]|] eqn:E end; cbn [obind] in H; [|discriminate].
+  inversion H; subst. apply setup_next_frame in E. destruct E as [-> _].
+  unfold push_event in NI. destruct (c_cb c); [destruct (_ <? _)|]; unfold in_connection in NI; cbn in NI; rewrite S1 in NI; discriminate NI.
+Qed.
+
+(* the connection event at the instant of a waiting update whose parameters are invalid: the link is dropped *)
+Lemma dropped_event c s e pdus s' r :
+  st s = Connected -> base22 s -> Glob s ->
+  existsb (fun p => 27 <? N.of_nat (length (snd p))) pdus = false ->
+  deferred s <> None ->
+  lstep c s (Ev e pdus) = (s', r) -> r <> OCrash -> in_connection s' = false ->
+  exists it, r = OItems it /\ has_adv22 it = true /\ Glob s'.
+Proof.
+  intros Hst0 (B1 & B3 & B4 & B5 & B6 & B7 & BT) (G1 & G2 & G3 & G4 & G5) HL DS H Hr NI.
+  assert (Hst : live22 s) by (right; left; exact Hst0).
+  pose proof BT as (I1 & I2 & I3 & I4 & I5 & I6 & I7 & I8 & I9).
+  cbn [lstep] in H. rewrite (in_conn_of3 s Hst) in H. rewrite HL in H.
+  destruct (radio_event_spec (S (length pdus + length (txq (bf s)))) s pdus) as (b' & R1 & R2 & R3 & R4 & R5 & R6 & R7).
+  { apply le_S. apply Nat.add_le_mono_l. apply unsent_le. } { apply le_n_S. apply Nat.le_0_l. }
+  destruct (radio_event _ s pdus) as [s1 it1]. cbn [fst snd] in R1, R7. subst s1 it1.
+  set (s1 := set_bf s b') in *.
+  assert (Hst1 : live22 s1) by exact Hst.
+  destruct (do_end_event c s1 e) as [[s2 it2]|] eqn:E2; [|inversion H; subst; congruence].
+  inversion H; subst s2 r; clear H.
+  destruct (prologue_form3 c s1 Hst1) as (rr & Esp & _).
+  unfold do_end_event in E2. rewrite Esp in E2.
+  set (sp := set_ring (upd_tm (set_st (set_pending_event s1 false) Connected) (fun t => set_tw_size t 0)) rr) in *.
+  destruct (end_event_body c sp e) as [[s9 it9]|] eqn:EB; cbn [obind] in E2; [|discriminate].
+  assert (S9 : in_connection s9 = false).
+  { pose proof (epilogue_st c s9 it9) as X. destruct (end_event_epilogue c s9 it9) as [x y]. cbn [fst] in X. inversion E2; subst x y.
+    unfold in_connection in *. rewrite <- X. exact NI. }
+  unfold end_event_body in EB. change (st sp) with Connected in EB. cbn [lstate_eqb andb] in EB.
+  destruct (deferred s) as [b|] eqn:DSb; [|exfalso; apply DS; reflexivity].
+  assert (DP : deferred sp = Some b) by exact DSb.
+  cbn [handle_received_data] in EB. rewrite DP in EB.
+  rewrite (send_control_noop sp) in EB by reflexivity.
+  destruct (end_event_continue c sp e) as [[s8 it8]|] eqn:EC; cbn [obind] in EB; [|discriminate].
+  cbn [app] in EB. injection EB as E9 E9'. subst s9 it9.
+  unfold end_event_continue, procedure_timed_out in EC. change (proc_timeout sp) with (proc_timeout s) in EC. rewrite B4 in EC. cbn [N.eqb negb andb] in EC.
+  unfold transmit_pending_security_pdus in EC. change (enc_prog (sc sp)) with (enc_prog (sc s)) in EC. rewrite G2, andb_false_r in EC. cbn [andb] in EC.
+  match type of EC with context [plan_next_connection_event c sp ?X] => destruct (plan_next_connection_event c sp X) as [s7|] eqn:E7 end; cbn [obind] in EC; [|discriminate].
+  apply plan_next_frame in E7. destruct E7 as [kk E7]. subst s7.
+  destruct (pending_then_setup c (set_cs sp kk)) as [[s8' it8']|] eqn:EPS; cbn [obind] in EC; [|discriminate].
+  cbn [app] in EC. injection EC as E8 E8'. subst s8' it8'.
+  destruct (pts_dropped c (set_cs sp kk) s8 it8) as (FG & FA & FS); try exact EPS; try exact S9; try reflexivity; try assumption.
+  unfold end_event_epilogue in E2. rewrite FS in E2. cbn [flush_events] in E2. inversion E2; subst s' it2; clear E2.
+  eexists. split; [reflexivity|]. split; [|exact FG].
+  unfold has_adv22 in *. rewrite !existsb_app, FA. rewrite orb_true_r. reflexivity.
+Qed.
+
+(* a missed event at the instant of a waiting update: timeout() applies the update (state connection_changed) *)
+Lemma missed_instant c s s' r b :
+  st s = Connected -> base22 s -> Glob s -> deferred s = Some b -> byte b 0 = 0 -> c_cb c = true ->
+  lstep c s Timeout = (s', r) -> r <> OCrash -> lost22 s = false -> st s' = ConnChanged ->
+  exists t ch ws we d,
+    parse_update b = (t, Some true)
+    /\ r = OItems (ICe ch ws we (interval t) :: map ICb [EvChanged d])
+    /\ d_interval d = rd16 b 4 /\ d_latency d = rd16 b 6 /\ d_timeout d = rd16 b 8
+    /\ tm s' = t /\ sca s' = sca s /\ base22 s' /\ Glob s' /\ deferred s' = None /\ 1250 <= tw_size t.
+Proof.
+  intros Hst0 (B1 & B3 & B4 & B5 & B6 & B7 & BT) HG DS B0 CBt H Hr L HS'.
+  assert (Hst : live22 s) by (right; left; exact Hst0).
+  pose proof HG as (G1 & G2 & G3 & G4 & G5).
+  destruct BT as (I1 & I2 & I3 & I4 & I5 & I6 & I7 & I8 & I9).
+  cbn [lstep] in H. rewrite (in_conn_of3 s Hst) in H.
+  destruct (do_timeout c s) as [[s2 it2]|] eqn:E; cbn [ok_items] in H; inversion H; subst; [|congruence]. clear H.
+  unfold do_timeout in E.
+  change (st (set_pending_event s false)) with (st s) in E. rewrite Hst0 in E. cbn [lstate_eqb andb] in E.
+  change (proc_timeout (set_pending_event s false)) with (proc_timeout s) in E. rewrite B4 in E. cbn [N.eqb negb andb] in E.
+  change (interval (tm (set_pending_event s false))) with (interval (tm s)) in E.
+  change (GenLL.num_windows_til_timeout - 1) with 5 in E.
+  rewrite (dt_mul_some (interval (tm s)) 5) in E by (clear - I2 I3; lia). cbn [obind] in E.
+  change (tsle (cs (set_pending_event s false))) with (tsle (cs s)) in E.
+  change (conn_timeout (tm (set_pending_event s false))) with (conn_timeout (tm s)) in E.
+  unfold lost22 in L. rewrite Hst0 in L. cbn [lstate_eqb andb] in L. rewrite orb_false_r in L. apply N.leb_gt in L.
+  replace (tsle (cs s) <? conn_timeout (tm s)) with true in E by (symmetry; apply N.ltb_lt; exact L). cbn [andb negb] in E.
+  unfold plan_after_timeout in E. change (tsle (cs (set_pending_event s false))) with (tsle (cs s)) in E.
+  change (interval (tm (set_pending_event s false))) with (interval (tm s)) in E.
+  rewrite dt_add_some in E by (clear - L I7 I3; lia). cbn [obind] in E.
+  set (s1 := upd_cs (set_pending_event s false) (fun c0 => mk_cstate ((ch_idx c0 + 1) mod 37) (u16 (evc c0 + 1)) (tsle (cs s) + interval (tm s)) (last_lat c0))) in E.
+  destruct (pending_then_setup c s1) as [[s8 it8]|] eqn:EPS; cbn [obind] in E; [|discriminate].
+  cbn [flush_events] in E. inversion E; subst s' it2; clear E.
+  assert (S8 : st s8 = ConnChanged) by exact HS'.
+  destruct (pts_apply c s1 b s8 it8 DS B0 Hst0 EPS S8) as (t & PU & E8). cbn zeta in E8.
+  destruct (parse_update_ok b t PU) as (CT & OI & T1 & T2 & T3 & T4 & T5 & T6).
+  pose proof (check_timing_true t CT) as (C1 & (C2 & C2') & (C3 & C3') & C4 & (C5 & C5') & C6).
+  unfold push_event in E8. rewrite CBt in E8.
+  match type of E8 with context [ring ?X] => change (ring X) with (ring s) in E8 end. rewrite G4 in E8.
+  change (N.of_nat (length (@nil cb_event)) <? GenLL.max_events) with true in E8. cbn iota in E8. cbn [app] in E8.
+  match type of E8 with setup_next_connection_event ?X = _ => set (sx := X) in * end.
+  apply setup_next_frame in E8. destruct E8 as [E8 (ch & ws & we & Eit)]. subst s8 it8.
+  change (interval (tm sx)) with (interval t).
+  subst sx. cbn [ring set_pending_event set_ring app map].
+  match goal with |- context [details_of ?X] => set (sa := X) in * end.
+  exists t, ch, ws, we, (details_of sa).
+  split; [exact PU|]. split; [reflexivity|].
+  split; [unfold details_of; change (interval (tm sa)) with (interval t); rewrite T3; change GenLL.us_per_digits with 1250; cbn [d_interval]; apply N.div_mul; discriminate|].
+  split; [unfold details_of; cbn [d_latency]; change (latency (tm sa)) with (latency t); exact T4|].
+  split; [unfold details_of; cbn [d_timeout]; change (timeout_value (tm sa)) with (timeout_value t); exact T5|].
+  split; [reflexivity|]. split; [reflexivity|].
+  split; [|split; [|split; [reflexivity|exact C3]]].
+  - unfold base22. split; [exact B1|]. split; [exact B3|]. split; [reflexivity|]. split; [exact B5|]. split; [exact B6|]. split; [exact B7|].
+    unfold timing_inv. change (tm _) with t. change (sca _) with (sca s).
+    repeat split; try assumption; try (clear - OI C2'; lia).
+  - unfold Glob. split; [exact G1|]. split; [exact G2|]. split; [exact G3|]. split; [reflexivity|]. left. reflexivity.
+Qed.
+
 (* ========================================================================================== a connect request *)
 Definition noce22 (i : item) : bool := match i with ICe _ _ _ _ => false | _ => true end.
 Lemma find_ce_pick a ch ws we iv b : forallb noce22 b = true -> find_ce (a ++ ICe ch ws we iv :: b) = Some (ch, ws, we, iv).
@@ -915,13 +1122,26 @@ Proof.
     fold (changed_details ([ICe ch ws we iv] ++ map ICb rr)). rewrite (changed_details_cbs _ rr R). reflexivity.
 Qed.
 
-Lemma still22_ev s e pdus s' : still22 s (Ev e pdus) s' = true ->
-  (exists b, deferred s = Some b /\ st s' = ConnChanged) \/ (deferred s <> None \/ updates_of pdus <> [] -> deferred s' <> None).
+Lemma refusal22_inv s pdus : refusal22 s pdus = true ->
+  deferred s = None /\ tx_avail (bf s) = true /\
+  exists b, pdus = [(3, b)] /\ length b = 12%nat /\ byte b 0 = 0 /\ instant_passed_update (rd16 b 10) (evc (cs s)) = true.
 Proof.
-  cbn [still22]. intros H.
+  unfold refusal22. intros H. apply andb_prop in H. destruct H as [H H3]. apply andb_prop in H. destruct H as [H1 H2].
+  split; [destruct (deferred s); [discriminate H1|reflexivity]|]. split; [exact H2|].
+  destruct pdus as [|[llid b] [|? ?]]; try discriminate H3. apply andb_prop in H3. destruct H3 as [U IP].
+  unfold upd_ok22 in U. cbn [fst snd] in U, IP. apply andb_prop in U. destruct U as [U B0]. apply andb_prop in U. destruct U as [L3 L].
+  apply N.eqb_eq in L3, L, B0. subst llid. exists b. split; [reflexivity|]. split; [clear - L; lia|]. split; [exact B0|exact IP].
+Qed.
+
+Lemma still22_ev s e pdus s' : refusal22 s pdus = false -> still22 s (Ev e pdus) s' = true ->
+  (exists b, deferred s = Some b /\ (st s' = ConnChanged \/ in_connection s' = false))
+  \/ (deferred s <> None \/ updates_of pdus <> [] -> deferred s' <> None).
+Proof.
+  cbn [still22]. intros RF H. rewrite RF in H. cbn [orb] in H.
   destruct (deferred s') as [d'|] eqn:D'; [right; intros _; discriminate|].
   destruct (deferred s) as [b|] eqn:D.
-  - left. exists b. split; [reflexivity|]. cbn [is_some22 orb andb] in H. destruct (st s'); try discriminate H. reflexivity.
+  - left. exists b. split; [reflexivity|]. cbn [is_some22 orb andb] in H. apply orb_prop in H. destruct H as [H|H];
+    [left; destruct (st s'); try discriminate H; reflexivity|right; apply negb_true_iff; exact H].
   - right. intros [Y|Y]; [congruence|]. exfalso. cbn [is_some22 orb andb] in H. destruct (updates_of pdus); [apply Y; reflexivity|discriminate H].
 Qed.
 
@@ -987,7 +1207,14 @@ Proof.
       assert (HPn : (updates_of pdus = [] /\ (normalise21 pdus = [] \/ (c_enc c = false /\ forallb (nq c) (normalise21 pdus) = true)))
                     \/ (c_enc c = false /\ exists b, pdus = [(3, b)] /\ length b = 12%nat /\ byte b 0 = 0))
         by (destruct HPc as [X|(X1 & _ & X2)]; [left; exact X|right; split; [exact X1|exact X2]]).
-      destruct (still22_ev s evts pdus s' HS0) as [(b0 & DS0 & _)|HK]; [congruence|].
+      destruct (refusal22 s pdus) eqn:RF.
+      { (* the update is refused: the link is dropped, advertising again *)
+        destruct (refusal22_inv s pdus RF) as (DS0 & TA0 & b0 & -> & L0 & B00 & IP0).
+        assert (Enc0 : c_enc c = false).
+        { destruct HPc as [[HU _]|(X & _)]; [|exact X]. exfalso. unfold updates_of in HU. cbn [flat_map fst snd] in HU. rewrite L0, B00 in HU. discriminate HU. }
+        destruct (refused_event c s evts s' r b0 Hst' HB HG Enc0 HL L0 B00 DS0 TA0 IP0 H Hr) as (it0 & Er0 & Ha0 & NI0 & HG0).
+        subst r p. unfold mstep22. cbn [p_phase]. rewrite Ha0. eexists. split; [reflexivity|]. split; [exact HG0|exact NI0]. }
+      destruct (still22_ev s evts pdus s' RF HS0) as [(b0 & DS0 & _)|HK]; [congruence|].
       destruct (neutral_event c s evts pdus s' r Hst' HB HG HL HPn H Hr HX HK) as (kk & ch & ws & we & pre & rr & Er & QP & RR & K1 & K2 & KT & Esum & Ecov & S1 & TM1 & A1 & HB1 & HG1 & EPD & ESH).
       assert (SH' : forall x, deferred s' = Some x -> byte x 0 = 0) by (intros x Hx; destruct (ESH x Hx) as [Y|Y]; [congruence|exact Y]).
       assert (CB' : deferred s' <> None -> c_cb c = true).
@@ -1050,8 +1277,19 @@ Proof.
       assert (HPn : (updates_of pdus = [] /\ (normalise21 pdus = [] \/ (c_enc c = false /\ forallb (nq c) (normalise21 pdus) = true)))
                     \/ (c_enc c = false /\ exists b, pdus = [(3, b)] /\ length b = 12%nat /\ byte b 0 = 0))
         by (destruct HPc as [X|(X1 & _ & X2)]; [left; exact X|right; split; [exact X1|exact X2]]).
-      destruct (still22_ev s evts pdus s' HS0) as [(b & DS & SC)|HK].
-      { (* the event at the instant of the waiting update *)
+      destruct (refusal22 s pdus) eqn:RF.
+      { (* the update is refused: the link is dropped, advertising again *)
+        destruct (refusal22_inv s pdus RF) as (DS0 & TA0 & b0 & -> & L0 & B00 & IP0).
+        assert (Enc0 : c_enc c = false).
+        { destruct HPc as [[HU _]|(X & _)]; [|exact X]. exfalso. unfold updates_of in HU. cbn [flat_map fst snd] in HU. rewrite L0, B00 in HU. discriminate HU. }
+        destruct (refused_event c s evts s' r b0 Hst' HB HG Enc0 HL L0 B00 DS0 TA0 IP0 H Hr) as (it0 & Er0 & Ha0 & NI0 & HG0).
+        subst r p. unfold mstep22. cbn [p_phase]. rewrite Ha0. eexists. split; [reflexivity|]. split; [exact HG0|exact NI0]. }
+      destruct (still22_ev s evts pdus s' RF HS0) as [(b & DS & SCN)|HK].
+      { destruct SCN as [SC|NI0].
+        2:{ (* the waiting update is found invalid at its instant: the link is dropped *)
+            destruct (dropped_event c s evts pdus s' r Hst HB HG HL ltac:(rewrite DS; discriminate) H Hr NI0) as (it0 & Er0 & Ha0 & HG0).
+            subst r p. unfold mstep22. cbn [p_phase]. rewrite Ha0. eexists. split; [reflexivity|]. split; [exact HG0|exact NI0]. }
+        (* the event at the instant of the waiting update *)
         assert (B0 : byte b 0 = 0) by exact (SH b DS).
         assert (CBt : c_cb c = true) by (apply CB; rewrite DS; discriminate).
         destruct (instant_event c s evts pdus s' r b Hst HB HG HZ HL DS B0 CBt H Hr HX SC)
@@ -1103,7 +1341,21 @@ Proof.
       * destruct ME as (it & Er & Ha & NI' & HG'). subst r. rewrite Ha, <- EL. cbn [negb]. rewrite andb_false_r.
         eexists. split; [reflexivity|]. split; [exact HG'|exact NI'].
       * destruct ME as [[Dn D8]|(ch & ws & we & Er & ED & S1 & TM1 & A1 & KT & Ecov & Esum & HB1 & HG1)].
-        { exfalso. cbn [still22] in HS0. rewrite D8, L in HS0. destruct (deferred s); [discriminate HS0|apply Dn; reflexivity]. }
+        { (* the instant falls on this missed event: timeout() applies the update *)
+          destruct (deferred s) as [b|] eqn:DS; [|exfalso; apply Dn; reflexivity].
+          cbn [still22] in HS0. rewrite DS, D8, L in HS0. cbn [is_some22 orb] in HS0.
+          assert (SC : st s' = ConnChanged) by (destruct (st s'); cbn in HS0; try discriminate HS0; reflexivity).
+          assert (B0 : byte b 0 = 0) by exact (SH b eq_refl).
+          assert (CBt : c_cb c = true) by (apply CB; discriminate).
+          assert (L' : lost22 s = false) by exact L.
+          destruct (missed_instant c s s' r b Hst HB HG DS B0 CBt H Hr L' SC) as (t & ch & ws & we & d & PU & Er & D1 & D2 & D3 & TM1 & A1 & HB1 & HG1 & DN1 & TW1).
+          destruct (parse_update_ok b t PU) as (CT & OI & T1 & T2 & T3 & T4 & T5 & T6).
+          assert (PEs : pend22 s = [(byte b 1, rd16 b 2, rd16 b 4, rd16 b 6, rd16 b 8)]) by (unfold pend22; rewrite DS; reflexivity).
+          subst r. rewrite PEs. cbn [has_adv22 existsb map orb changed_details fold_left].
+          cbn [LLSpecC22.applied_update]. rewrite D1, D2, D3, !N.eqb_refl. cbn [andb].
+          eexists. split; [reflexivity|]. split; [exact HG1|].
+          unfold T22. cbn [p_phase]. split; [exact SC|]. split; [exact HB1|]. split; [rewrite TM1; clear - TW1; lia|]. split; [exact DN1|].
+          rewrite TM1, A1, T1, T2, T3, T4, T6. reflexivity. }
         subst r.
         cbn [has_adv22 existsb changed_details fold_left find_ce]. rewrite <- EL. cbn [negb orb].
         rewrite N.eqb_refl. cbn [negb].
@@ -1136,7 +1388,14 @@ Proof.
       assert (HPn : (updates_of pdus = [] /\ (normalise21 pdus = [] \/ (c_enc c = false /\ forallb (nq c) (normalise21 pdus) = true)))
                     \/ (c_enc c = false /\ exists b, pdus = [(3, b)] /\ length b = 12%nat /\ byte b 0 = 0))
         by (destruct HPc as [X|(X1 & _ & X2)]; [left; exact X|right; split; [exact X1|exact X2]]).
-      destruct (still22_ev s evts pdus s' HS0) as [(b0 & DS0 & _)|HK]; [congruence|].
+      destruct (refusal22 s pdus) eqn:RF.
+      { (* the update is refused: the link is dropped, advertising again *)
+        destruct (refusal22_inv s pdus RF) as (DS0 & TA0 & b0 & -> & L0 & B00 & IP0).
+        assert (Enc0 : c_enc c = false).
+        { destruct HPc as [[HU _]|(X & _)]; [|exact X]. exfalso. unfold updates_of in HU. cbn [flat_map fst snd] in HU. rewrite L0, B00 in HU. discriminate HU. }
+        destruct (refused_event c s evts s' r b0 Hst' HB HG Enc0 HL L0 B00 DS0 TA0 IP0 H Hr) as (it0 & Er0 & Ha0 & NI0 & HG0).
+        subst r p. unfold mstep22. cbn [p_phase]. rewrite Ha0. eexists. split; [reflexivity|]. split; [exact HG0|exact NI0]. }
+      destruct (still22_ev s evts pdus s' RF HS0) as [(b0 & DS0 & _)|HK]; [congruence|].
       destruct (neutral_event c s evts pdus s' r Hst' HB HG HL HPn H Hr HX HK) as (kk & ch & ws & we & pre & rr & Er & QP & RR & K1 & K2 & KT & Esum & Ecov & S1 & TM1 & A1 & HB1 & HG1 & EPD & ESH).
       assert (SH' : forall x, deferred s' = Some x -> byte x 0 = 0) by (intros x Hx; destruct (ESH x Hx) as [Y|Y]; [congruence|exact Y]).
       assert (CB' : deferred s' <> None -> c_cb c = true).
@@ -1282,3 +1541,33 @@ Lemma session22_update_applied_env :
   /\ deferred (lfinal cfg_base (linit cfg_base) session22_update_applied) = None
   /\ (exists it d, nth_error (trace_of cfg_base session22_update_applied) 7 = Some (Ev 0 [], OItems it) /\ In (ICb (EvChanged d)) it).
 Proof. vm_compute. split; [reflexivity|]. split; [reflexivity|]. split; [reflexivity|]. do 2 eexists. split; [reflexivity|]. simpl. tauto. Qed.
+
+(* the instant (5) of the update falls on a MISSED event: timeout() applies it *)
+Definition session22_instant_missed : list lop :=
+  [Run; connect_with 3 11 24 0 72; Ev 0 []; Ev 0 [upd_pdu 2 3 80 0 200 5]; Ev 0 []; Ev 0 []; Timeout; Timeout; Ev 0 []; Ev 0 []].
+Lemma session22_instant_missed_env :
+  env22 cfg_base (linit cfg_base) session22_instant_missed = true
+  /\ interval (tm (lfinal cfg_base (linit cfg_base) session22_instant_missed)) = 100000
+  /\ (exists it d, nth_error (trace_of cfg_base session22_instant_missed) 6 = Some (Timeout, OItems it) /\ In (ICb (EvChanged d)) it).
+Proof. vm_compute. split; [reflexivity|]. split; [reflexivity|]. do 2 eexists. split; [reflexivity|]. simpl. tauto. Qed.
+
+(* a refused update: its instant (1) has passed when it is delivered in event 2 - the link is dropped with 0x28, advertising
+   starts again, a new connection follows *)
+Definition session22_update_refused : list lop :=
+  [Run; connect_with 3 11 24 0 72; Ev 0 []; Ev 0 []; Ev 0 [upd_pdu 2 3 80 0 200 1]; AdvTimeout; connect_with 3 11 24 0 72; Ev 0 []; Timeout; Ev 0 []].
+Lemma session22_update_refused_env :
+  env22 cfg_base (linit cfg_base) session22_update_refused = true
+  /\ (exists it, nth_error (trace_of cfg_base session22_update_refused) 4 = Some (Ev 0 [upd_pdu 2 3 80 0 200 1], OItems it)
+                 /\ In (ICb (EvClosed 40)) it /\ has_adv22 it = true).
+Proof. vm_compute. split; [reflexivity|]. eexists. split; [reflexivity|]. split; [simpl; tauto|reflexivity]. Qed.
+
+(* an update with an invalid interval (5 < 6): it waits like any other and is found invalid at its instant (5), in a connection
+   event: the link is dropped (the reason is 0x08 - low severity finding; C22's monitor does not judge the reason of a drop
+   that ends a connection event), advertising starts again *)
+Definition session22_update_invalid : list lop :=
+  [Run; connect_with 3 11 24 0 72; Ev 0 []; Ev 0 [upd_pdu 2 3 5 0 200 5]; Ev 0 []; Ev 0 []; Ev 0 []; AdvTimeout; connect_with 3 11 24 0 72; Ev 0 []].
+Lemma session22_update_invalid_env :
+  env22 cfg_base (linit cfg_base) session22_update_invalid = true
+  /\ (exists it, nth_error (trace_of cfg_base session22_update_invalid) 6 = Some (Ev 0 [], OItems it)
+                 /\ In (ICb (EvClosed 8)) it /\ has_adv22 it = true).
+Proof. vm_compute. split; [reflexivity|]. eexists. split; [reflexivity|]. split; [simpl; tauto|reflexivity]. Qed.
